@@ -229,7 +229,7 @@ pub enum Op {
     Dir,
     /// recover a *copy* from the image after `k` OS-level operations plus `cut` bytes of the next
     /// `instant`: for a power-loss image, the number of OS operations done when power was lost
-    Crash { k: usize, cut: usize, pol: Pol, instant: Option<usize> },
+    Crash { k: usize, cut: usize, pol: Pol, instant: Option<usize>, drop: Vec<u64>, zero: Vec<(u64, u64)> },
     /// drop the log (the `BufWriter` flushes)
     Close,
     /// remember / restore the directory content (log must be closed)
@@ -274,10 +274,19 @@ impl Op {
             Op::Range { q, lo, hi } => format!("range {} {} {}", hex(q.as_bytes()), lo.tok(), hi.tok()),
             Op::State => "state".into(),
             Op::Dir => "dir".into(),
-            Op::Crash { k, cut, pol, instant } => match instant {
-                Some(i) => format!("crash {} {} {} instant={}", k, cut, pol.tok(), i),
-                None => format!("crash {} {} {}", k, cut, pol.tok()),
-            },
+            Op::Crash { k, cut, pol, instant, drop, zero } => {
+                let mut s = format!("crash {} {} {}", k, cut, pol.tok());
+                if let Some(i) = instant {
+                    s.push_str(&format!(" instant={}", i));
+                }
+                if !drop.is_empty() {
+                    s.push_str(&format!(" drop={}", drop.iter().map(|f| f.to_string()).collect::<Vec<_>>().join(",")));
+                }
+                if !zero.is_empty() {
+                    s.push_str(&format!(" zero={}", zero.iter().map(|(f, o)| format!("{}:{}", f, o)).collect::<Vec<_>>().join(",")));
+                }
+                s
+            }
             Op::Close => "close".into(),
             Op::Snapshot => "snapshot".into(),
             Op::Restore => "restore".into(),
@@ -319,7 +328,14 @@ impl Op {
             ["rmfile", f, ..] => Some(Op::RmFile(f.parse().ok()?)),
             ["copyfile", a, b, ..] => Some(Op::CopyFile { src: a.parse().ok()?, dst: b.parse().ok()? }),
             ["copyblock", a, b, c, d, ..] => Some(Op::CopyBlock { f1: a.parse().ok()?, i1: b.parse().ok()?, f2: c.parse().ok()?, i2: d.parse().ok()? }),
-            ["crash", k, cut, p, ..] => Some(Op::Crash { k: k.parse().ok()?, cut: cut.parse().ok()?, pol: Pol::parse(p), instant: kv("instant").and_then(|v| v.parse().ok()) }),
+            ["crash", k, cut, p, ..] => Some(Op::Crash {
+                k: k.parse().ok()?,
+                cut: cut.parse().ok()?,
+                pol: Pol::parse(p),
+                instant: kv("instant").and_then(|v| v.parse().ok()),
+                drop: kv("drop").map(|v| v.split(',').filter_map(|x| x.parse().ok()).collect()).unwrap_or_default(),
+                zero: kv("zero").map(|v| v.split(',').filter_map(|x| x.split_once(':').and_then(|(a, b)| Some((a.parse().ok()?, b.parse().ok()?)))).collect()).unwrap_or_default(),
+            }),
             ["append", q, p, rest @ ..] => Some(Op::Append {
                 q: name(q),
                 pos: if *p == "-" { None } else { Some(p.parse().ok()?) },
